@@ -24,7 +24,7 @@ for pid in ALL:
         "engine": "rapid-overlay-harness",
         "level_claimed": {
             "category": cfg["level"],
-            "text": cfg["level_text"],
+            "text": cfg["level_text"] + (" " + cfg["level_text_more"] if cfg.get("level_text_more") else ""),
             "design_ref": "DESIGN.md section 4, " + pid,
         },
         "level_note": cfg["level_note"],
